@@ -2,6 +2,10 @@ import RbV.Spec.QGram
 import RbV.Spec.KChain
 import RbV.Lemmas.QGram
 import RbV.Lemmas.KChain
+import RbV.Lemmas.QGramIter
+import RbV.Lemmas.QGramExact
+import RbV.Lemmas.QGramMatches
+import RbV.Lemmas.QGramIndex
 /-!
 # C19 — k-mer / q-gram indexing and sparse chaining are exact
 
@@ -27,22 +31,8 @@ code are the same word — for every alphabet, whatever its size. -/
 theorem qgram_code_injective (alpha u v : List Nat) (hu : ∀ c ∈ u, c ∈ alpha) (hv : ∀ c ∈ v, c ∈ alpha)
     (hl : u.length = v.length)
     (h : code (bitsFor alpha.length) (u.map (rank alpha)) = code (bitsFor alpha.length) (v.map (rank alpha))) :
-    u = v := by
-  have hr := code_injective (bitsFor alpha.length) (u.map (rank alpha)) (v.map (rank alpha)) (by simpa using hl)
-    (by intro r hr; rcases List.mem_map.mp hr with ⟨c, hc, rfl⟩; exact rank_fits alpha c (hu c hc))
-    (by intro r hr; rcases List.mem_map.mp hr with ⟨c, hc, rfl⟩; exact rank_fits alpha c (hv c hc)) h
-  clear h
-  induction u generalizing v with
-  | nil => cases v with
-    | nil => rfl
-    | cons _ _ => simp at hl
-  | cons a u ih =>
-    cases v with
-    | nil => simp at hl
-    | cons b v =>
-      simp only [List.map_cons, List.cons.injEq] at hr
-      have hab := rank_injective (hu a (by simp)) (hv b (by simp)) hr.1
-      rw [hab, ih v (fun c hc => hu c (by simp [hc])) (fun c hc => hv c (by simp [hc])) (by simpa using hl) hr.2]
+    u = v :=
+  code_rank_injective alpha u v hu hv hl h
 
 /-- a q-gram code occupies at most `bits · q` bits -/
 theorem qgram_code_bound (alpha w : List Nat) (hw : ∀ c ∈ w, c ∈ alpha) :
@@ -52,6 +42,36 @@ theorem qgram_code_bound (alpha w : List Nat) (hw : ∀ c ∈ w, c ∈ alpha) :
   simpa using this
 
 example : code 2 [2, 1] = 9 ∧ code 2 [1, 2, 0] = 24 := by decide
+
+/-- the reference code list: one code per window of length `q`, left to right -/
+theorem fwdCodes_spec (alpha : List Nat) (q : Nat) (text : List Nat) :
+    (fwdCodes alpha q text).length = text.length + 1 - q ∧
+    ∀ i, i + q ≤ text.length → 0 < q →
+      (fwdCodes alpha q text)[i]? = some (code (bitsFor alpha.length) (((text.drop i).take q).map (rank alpha))) := by
+  constructor
+  · simp [fwdCodes, windows]
+  · intro i hi hq
+    simp only [fwdCodes, windows, List.getElem?_map, List.length_map]
+    rw [List.getElem?_range (by omega)]
+    simp [window, List.map_take, List.map_drop]
+
+/-- **mirror model of `QGrams`** (rolling `<<=`, `|=`, `&= mask` on 64-bit words, first `q−1` values consumed): for
+every alphabet, every `q ≥ 1` with `q·bits ≤ 64` and every text over the alphabet it yields exactly the reference
+codes -/
+theorem qgrams_model_refines (alpha : List Nat) (q : Nat) (text : List Nat) (hq : 0 < q)
+    (hqb : q * bitsFor alpha.length ≤ 64) (ht : ∀ c ∈ text, c ∈ alpha) :
+    qgramsModel alpha q text = fwdCodes alpha q text :=
+  qgramsModel_eq alpha q text hq hqb ht
+
+/-- **reverse iteration mirrors forward iteration**: the model of `RevQGrams` (`>>=`, `|= a << (q−1)·bits`, symbols
+taken from the back) yields the forward codes in reverse order -/
+theorem rev_qgrams_mirror (alpha : List Nat) (q : Nat) (text : List Nat) (hq : 0 < q)
+    (hqb : q * bitsFor alpha.length ≤ 64) (ht : ∀ c ∈ text, c ∈ alpha) :
+    revQgramsModel alpha q text = (qgramsModel alpha q text).reverse := by
+  rw [qgramsModel_eq alpha q text hq hqb ht, revQgramsModel_eq alpha q text hq ht]
+
+example : qgramsModel [65, 67, 71, 84, 97, 99, 103, 116] 2 [65, 67, 71, 84] = [1, 10, 19] ∧
+    revQgramsModel [65, 67, 71, 84, 97, 99, 103, 116] 2 [65, 67, 71, 84] = [19, 10, 1] := by decide
 
 /-! ## q-gram index: position lists -/
 
@@ -73,11 +93,123 @@ theorem positions_unique (mc : Nat) (g t l : List Nat) (hs : l.Pairwise (· < ·
   apply sorted_eq_of_mem_iff l _ hs (qgramPositions_sorted mc g t)
   intro i; rw [hm, mem_qgramPositions]
 
+/-- **mirror model of the index construction** (`with_max_count`: count per code, mask counts above `max_count`,
+exclusive prefix sums, fill `pos` through per-code offsets; `qgram_matches`: the slice between two addresses).
+With `2^(bits·q)` (+1) address slots — the size the repaired code allocates — the slice for the code of any q-gram over the
+alphabet is exactly `qgramPositions`, for every alphabet size, text, q and `max_count`. -/
+theorem index_model_refines (alpha : List Nat) (q mc : Nat) (text gram : List Nat) (hq : 0 < q)
+    (ht : ∀ c ∈ text, c ∈ alpha) (hg : ∀ c ∈ gram, c ∈ alpha) (hgl : gram.length = q) :
+    qgramMatchesModel (buildIndex (2 ^ (bitsFor alpha.length * q)) mc (fwdCodes alpha q text))
+        (code (bitsFor alpha.length) (gram.map (rank alpha))) = qgramPositions mc gram text :=
+  indexModel_eq alpha q mc text gram hq ht hg hgl
+
+/-- counting-sort core of the previous theorem, for any table size that exceeds every code -/
+theorem index_model_counting_sort (size mc : Nat) (codes : List Nat) (hcodes : ∀ c ∈ codes, c < size) (c : Nat)
+    (hc : c < size) :
+    qgramMatchesModel (buildIndex size mc codes) c = if codes.count c > mc then [] else posFrom c 0 codes :=
+  buildIndex_correct size mc codes hcodes c hc
+
+/-- the guard `code < size` is what the pinned tree violated: with `|A|^q` slots and the three-letter alphabet the q-gram
+`cc` (q = 2) has code 10 ≥ 9 -/
+example : code (bitsFor 3) ([99, 99].map (rank [97, 98, 99])) = 10 ∧ 3 ^ 2 = 9 ∧ 2 ^ (bitsFor 3 * 2) = 16 := by decide
+
+example : qgramMatchesModel (buildIndex 16 5 (fwdCodes [97, 98, 99] 2 [97, 98, 99, 99, 98, 99])) 6 = [1, 4] ∧
+    qgramPositions 5 [98, 99] [97, 98, 99, 99, 98, 99] = [1, 4] := by decide
+
 /-- the number of occurrences that decides masking is the number of positions at which the q-gram occurs -/
 theorem occurrence_count_exact (g t : List Nat) (i : Nat) : i ∈ occurrences g t ↔ OccursAt g t i :=
   mem_occurrences g t i
 
 example : qgramPositions 5 [1, 2] [1, 2, 0, 1, 2] = [0, 3] ∧ qgramPositions 1 [1, 2] [1, 2, 0, 1, 2] = [] := by decide
+
+/-! ## q-gram index: hits, `exact_matches`, `matches` -/
+
+/-- a pair (pattern position, text position) is a hit of the reference iff the two q-grams exist, are equal, and the
+q-gram is not masked (occurs at most `mc` times in the text) -/
+theorem hits_exact (mc q : Nat) (pat text : List Nat) (i p : Nat) (_hq : 0 < q) :
+    (i, p) ∈ hits mc q pat text ↔
+      i + q ≤ pat.length ∧ p + q ≤ text.length ∧ (pat.drop i).take q = (text.drop p).take q ∧
+      (occurrences ((pat.drop i).take q) text).length ≤ mc := by
+  rw [mem_hits_iff]
+  unfold isHit
+  simp only [Bool.and_eq_true, decide_eq_true_eq, List.contains_iff_mem, mem_qgramPositions, OccursAt]
+  constructor
+  · rintro ⟨hi, ⟨hp, hw⟩, hc⟩
+    rw [window_length hi] at hp hw
+    exact ⟨hi, hp, hw.symm, hc⟩
+  · rintro ⟨hi, hp, hw, hc⟩
+    refine ⟨hi, ⟨?_, ?_⟩, hc⟩
+    · rw [window_length hi]; exact hp
+    · rw [window_length hi]; exact hw.symm
+
+/-- symbol-wise agreement is equality of the two slices -/
+theorem agree_iff_slices (pat text : List Nat) (ps ts L : Nat) :
+    Agree pat text ps ts L ↔
+      ps + L ≤ pat.length ∧ ts + L ≤ text.length ∧ (pat.drop ps).take L = (text.drop ts).take L := by
+  unfold Agree
+  constructor
+  · rintro ⟨h1, h2, h3⟩; exact ⟨h1, h2, (window_eq_iff L ps ts h1 h2).mpr h3⟩
+  · rintro ⟨h1, h2, h3⟩; exact ⟨h1, h2, (window_eq_iff L ps ts h1 h2).mp h3⟩
+
+/-- **`exact_matches` = the maximal exact matches of length ≥ q.**  When no q-gram is masked (`mc` at least every
+occurrence count, e.g. `QGramIndex::new`), a range pair is reported by the reference iff pattern and text agree on
+it (`L ≥ q` symbols), the symbols just before differ or do not exist, and the symbols just after differ or do not
+exist. -/
+theorem exact_matches_are_maximal_exact_matches (mc q : Nat) (pat text : List Nat) (hq : 0 < q)
+    (hmc : ∀ g, (occurrences g text).length ≤ mc) (ps pe ts te : Nat) :
+    (ps, pe, ts, te) ∈ exactMatchesRef mc q pat text ↔
+      ∃ L, pe = ps + L ∧ te = ts + L ∧ q ≤ L ∧ Agree pat text ps ts L ∧
+        ¬ (0 < ps ∧ 0 < ts ∧ SymEq pat text (ps - 1) (ts - 1)) ∧ ¬ SymEq pat text (ps + L) (ts + L) :=
+  exactMatchesRef_iff_maximal mc q hq hmc ps pe ts te
+
+/-- **mirror model of `matches`** (hits visited by ascending pattern position; one record per diagonal in a map:
+vacant ⇒ record of the hit, occupied ⇒ new stops and `count + 1`; finally `count ≥ min_count`) reports exactly the
+records of the declarative reference (per diagonal: least/greatest hit position, `+ q`, number of hits) — for every
+pattern, text, q, `max_count` and `min_count`, also when the pattern position is ahead of the text position. -/
+theorem matches_model_refines (mc q minc : Nat) (pat text : List Nat) (r : MatchRec) :
+    r ∈ matchesModel mc q minc pat text ↔ r ∈ matchesRef mc q minc pat text :=
+  matchesModel_mem_iff mc q minc pat text r
+
+/-- what a record of the reference is: the diagonal carries a hit, and the record holds its least / greatest hit
+positions (+ q) and its number of hits, which is at least `minc` -/
+theorem matchesRef_spec (mc q minc : Nat) (pat text : List Nat) (r : MatchRec) :
+    r ∈ matchesRef mc q minc pat text ↔
+      ∃ d : Int, (∃ h ∈ hits mc q pat text, diag h = d) ∧ r = diagRec q (hits mc q pat text) d ∧ minc ≤ r.2.2.2.2 := by
+  unfold matchesRef
+  simp only [List.mem_filter, List.mem_map, mem_dedupInt, decide_eq_true_eq]
+  constructor
+  · rintro ⟨⟨d, ⟨h, hh, hd⟩, rfl⟩, hc⟩
+    exact ⟨d, ⟨h, hh, hd⟩, rfl, hc⟩
+  · rintro ⟨d, ⟨h, hh, hd⟩, rfl, hc⟩
+    exact ⟨⟨d, ⟨h, hh, hd⟩, rfl⟩, hc⟩
+
+example : matchesModel 9 2 1 [3, 1, 2, 3] [1, 2, 3, 1, 2] = [(0, 3, 2, 5, 2), (1, 4, 0, 3, 2)] ∧
+    matchesRef 9 2 1 [3, 1, 2, 3] [1, 2, 3, 1, 2] = [(0, 3, 2, 5, 2), (1, 4, 0, 3, 2)] := by decide
+
+/-- any text of length `n` masks nothing when `mc ≥ n + 1` -/
+theorem nothing_masked (mc : Nat) (text : List Nat) (h : text.length + 1 ≤ mc) (g : List Nat) :
+    (occurrences g text).length ≤ mc := by
+  have hs := occurrences_sorted g text
+  have hb : ∀ i ∈ occurrences g text, i < text.length + 1 := by
+    intro i hi
+    have := (mem_occurrences g text i).mp hi
+    unfold OccursAt at this; omega
+  have key : ∀ (l : List Nat) (lo hi : Nat), l.Pairwise (· < ·) → (∀ i ∈ l, lo ≤ i ∧ i < hi) → l.length ≤ hi - lo := by
+    intro l
+    induction l with
+    | nil => intros; simp
+    | cons a l ih =>
+      intro lo hi hs hb
+      rw [List.pairwise_cons] at hs
+      have ha := hb a (by simp)
+      have := ih (a + 1) hi hs.2 (fun i hi' => ⟨hs.1 i hi', (hb i (by simp [hi'])).2⟩)
+      simp only [List.length_cons]
+      omega
+  have := key _ 0 (text.length + 1) hs (fun i hi => ⟨by omega, hb i hi⟩)
+  omega
+
+example : exactMatchesRef 9 2 [1, 2, 3, 9, 1, 2] [0, 1, 2, 3, 1, 2] = [(0, 3, 1, 4), (0, 2, 4, 6), (4, 6, 1, 3), (4, 6, 4, 6)] := by
+  decide
 
 /-! ## k-mer matches -/
 
